@@ -191,6 +191,24 @@ static void check_value(prog_t* P, val_t* v, const char* after) {
   }
 }
 
+// exponents of rotations / automorphisms: random 62-bit values, a small fixed set that recurs from program to program
+// (and hence from one ring dimension to the next within a process), multiples of 2N (identity), odd multiples of N
+// (negation), and for automorphisms the fixed points p = 1 mod 2N
+static int64_t pick_p(prog_t* P, int is_auto) {
+  rng_t* r = P->r;
+  const int64_t N = (int64_t)P->N;
+  static const int64_t FIXED[] = {5, 3, 7, 25, 261, -1, 1, -3, 2, 4, 12, 1023};
+  int64_t p;
+  switch (rng_u64(r) % 8) {
+    case 0: case 1: case 2: p = rng_sbits(r, 1 + (unsigned)(rng_u64(r) % 62)); break;
+    case 3: case 4: p = FIXED[rng_u64(r) % ARRAY_LEN(FIXED)]; break;
+    case 5: p = 2 * N * rng_sbits(r, 1 + (unsigned)(rng_u64(r) % 20)) + (is_auto ? 1 : 0); break;
+    case 6: p = N * (2 * rng_sbits(r, 10) + 1) + (is_auto ? 1 : 0); break;
+    default: p = FIXED[rng_u64(r) % ARRAY_LEN(FIXED)] + 2 * N * rng_sbits(r, 30); break;
+  }
+  if (is_auto) p |= 1;
+  return p;
+}
 static uint64_t rsize(prog_t* P) { return rng_u64(P->r) % 5; }
 static uint64_t rstride(prog_t* P) { return stride_choice(P->N, (unsigned)(rng_u64(P->r) & 3)); }
 
@@ -215,8 +233,7 @@ static int step(prog_t* P) {
       const uint64_t rs = inplace ? ((rng_u64(r) & 1) ? a->size : rng_u64(r) % (a->size + 1)) : rsize(P);
       val_t* res = inplace ? a : newval(P, T_ZNX, rs, rstride(P), "");
       if (!res) return 0;
-      int64_t p = rng_sbits(r, 1 + (unsigned)(rng_u64(r) % 62));
-      if (choice == 4) p |= 1;
+      int64_t p = pick_p(P, choice == 4);
       if (P->ntt == 0 && choice == 2 && norminf(a->x, a->size * N) > 0x1p61L) return inplace ? 0 : (freeval(res), P->nv--, 0);
       i128* nx = calloc((rs ? rs : 1) * N, sizeof(i128));
       for (uint64_t l = 0; l < rs; l++) {
@@ -494,13 +511,21 @@ static int step(prog_t* P) {
       val_t* a = pick(P, T_BIG);
       if (!a) return 0;
       const int is_auto = (int)(rng_u64(r) & 1);
-      int64_t p = rng_sbits(r, 1 + (unsigned)(rng_u64(r) % 62));
-      if (is_auto) p |= 1;
+      int64_t p = pick_p(P, is_auto);
       const uint64_t rs = rsize(P);
-      val_t* res = newval(P, T_BIG, rs, 0, is_auto ? "vec_znx_big_automorphism" : "vec_znx_big_rotate");
+      // one call in three is in place: the result object (max(rs, a->size) limbs, stale pre-fill beyond the input) first
+      // receives a copy of the input, then the map is applied with res == a
+      const int inplace = (rng_u64(r) % 3) == 0;
+      const uint64_t cap = inplace && a->size > rs ? a->size : rs;
+      val_t* res = newval(P, T_BIG, cap, 0, is_auto ? (inplace ? "vec_znx_big_automorphism(in place)" : "vec_znx_big_automorphism") : (inplace ? "vec_znx_big_rotate(in place)" : "vec_znx_big_rotate"));
       if (!res) return 0;
       for (uint64_t l = 0; l < rs && l < a->size; l++) exact_ringmap(N, is_auto, p, a->x + l * N, res->x + l * N);
-      (is_auto ? vec_znx_big_automorphism : vec_znx_big_rotate)(M, p, res->p, rs, a->p, a->size);
+      if (inplace) {
+        memcpy(res->p, a->p, a->size * N * 8);
+        for (uint64_t l = rs; l < a->size; l++) memcpy(res->x + l * N, a->x + l * N, N * sizeof(i128));  // limbs beyond res_size keep the input
+        (is_auto ? vec_znx_big_automorphism : vec_znx_big_rotate)(M, p, res->p, rs, res->p, a->size);
+      } else
+        (is_auto ? vec_znx_big_automorphism : vec_znx_big_rotate)(M, p, res->p, rs, a->p, a->size);
       cntf("op:%s", 1, res->producer);
       edge(a, res->producer);
       P->coeff_after_idft++;
